@@ -44,6 +44,11 @@ ASSUMPTIONS = [
     "list all positional checks and the delete check are repeated on fresh queries. Lists that are the object's own "
     "storage on the reference tree (shape.grid rows, sketch.grid / core / shell / faces, Hemisphere.operations, "
     "RevolvedRing.operations / .shell) are never modified by the harness",
+    "placements include offsets of 1e3 / 1e5 / 1e6 sizes from the origin (as in C11; size capped so that the library's "
+    "absolute TOL = 1e-7 stays 50x away); positional tolerances are relative to the cell size, not to the coordinates",
+    "after the history one addressed operation and then the whole entity are translated with the library's translate: "
+    "exactly the addressed corners move, once (Hemisphere lofts share Face objects with their neighbours by design, so "
+    "only the whole shape is moved there)",
     "after a deletion every remaining operation carries the same count on all axes, so the write cannot fail for lack "
     "of chops; a failing write is labelled inconclusive, not judged",
 ]
@@ -65,12 +70,14 @@ def stack_cases(draw, how: str):
     q = draw(xs.sweep_params(how))
     q["repeats"] = t
     counts = [[draw(st.integers(1, 6)) for _ in range(n)] for n in (n1, n2, t)]
-    return {
+    case = {
         "how": how, "sketch": sp, "sweep": q, "place": draw(xs.placements()), "counts": counts,
         "pick": [draw(st.integers(0, n1 - 1)), draw(st.integers(0, n2 - 1)), draw(st.integers(0, t - 1))],
         "history": draw(st.sampled_from(HISTORIES)),
         "mutate": draw(st.sampled_from(MUTATIONS)),
+        "move": draw(moves()),
     }
+    return xs.settle_far(case, draw(xs.far_offsets()), None)
 
 
 def expected_centres(case) -> Dict[Tuple[int, int, int], np.ndarray]:
@@ -285,7 +292,11 @@ def check_stack(case, ctx: Ctx) -> None:
                                 f"{missing + [(i, j, k)] if (i, j, k) not in left else missing}, unexpected {extra}",
                                 pick=[i, j, k], history=history, **facts)
             ctx.label("delete-checked", "history:" + history)
+            check_moves(stack2, ops2, case.get("move"), cell, dict(facts, history=history))
+            if case.get("move") is not None:
+                ctx.label("moves-checked")
     general = xs.is_general(place)
+    ctx.label(f"far-ratio={xs.far_ratio(case):.0e}" if xs.far_ratio(case) else "near-origin")
     ctx.nt(general and len({n1, n2, t}) == 3)
     ctx.label("general" if general else "aligned", "sizes-distinct" if len({n1, n2, t}) == 3 else "sizes-repeat",
               f"cells<={10 * ((n1 * n2 * t + 9) // 10)}", "caller:" + how, "single-row" if n2 == 1 else "multi-row")
@@ -368,6 +379,37 @@ def write_after(mesh, victim, history: str, facts: dict, ctx: Ctx):
         return None
 
 
+@st.composite
+def moves(draw):
+    """what the caller does with the model after the history: move one addressed operation, then the whole entity"""
+    vec = lambda: [draw(st.floats(0.3, 2.0)) * draw(st.sampled_from([1.0, -1.0])) for _ in range(3)]  # noqa: E731
+    return {"op": draw(st.sampled_from(list(range(12)))), "v1": vec(), "v2": vec()}
+
+
+def check_moves(entity, ops: Sequence, move, size: float, facts: dict, single: bool = True) -> None:
+    """translating one addressed operation moves its eight corners and nothing else; translating the entity moves every
+    corner of every operation once (in-place transforms after assemble / backport included)"""
+    if move is None:
+        return
+    corners = [np.array(op.point_array, dtype=float) for op in ops]
+    tol = 1e-6 * size + 1e-12 * float(np.abs(corners[0]).max())  # float64 noise of an in-place addition far out
+    shift = [np.zeros(3) for _ in ops]
+    steps = []
+    if single:
+        k = move["op"] % len(ops)
+        steps.append((ops[k], np.array(move["v1"]) * size, [k], f"operation {k}"))
+    steps.append((entity, np.array(move["v2"]) * size, list(range(len(ops))), "the whole entity"))
+    for target, v, who, name in steps:
+        target.translate(v)
+        for k in who:
+            shift[k] = shift[k] + v
+        for k, op in enumerate(ops):
+            err = float(np.abs(np.asarray(op.point_array, float) - (corners[k] + shift[k])).max())
+            if err > tol:
+                raise Violation("translate-address", f"after translating {name}, operation {k} is {err:.3g} away from where "
+                                f"it {'should have gone' if k in who else 'was'}", moved=name.split()[0], **facts)
+
+
 def check_unmoved(ops: Sequence, cents: Dict[Any, np.ndarray], tol: float, facts: dict) -> None:
     """no operation has left its location during the history (backport writes vertex positions back into operations)"""
     for key, op in zip(cents, ops):
@@ -377,7 +419,8 @@ def check_unmoved(ops: Sequence, cents: Dict[Any, np.ndarray], tol: float, facts
                             "location after the history", moved=str(key), **facts)
 
 
-def delete_check(entity, ops: Sequence, victim, facts: dict, ctx: Ctx, history: str = "write") -> None:
+def delete_check(entity, ops: Sequence, victim, facts: dict, ctx: Ctx, history: str = "write", move=None,
+                 single: bool = True) -> None:
     """every operation gets the same count on all axes; the victim is deleted; the file must hold all other hexes"""
     cents = {k: np.asarray(op.point_array, float).mean(axis=0) for k, op in enumerate(ops)}
     size = min(np.linalg.norm(np.asarray(op.point_array)[1] - np.asarray(op.point_array)[0]) for op in ops)
@@ -399,6 +442,9 @@ def delete_check(entity, ops: Sequence, victim, facts: dict, ctx: Ctx, history: 
     if left != want:
         raise Violation("delete-address", f"deleting operation {gone} left hexes {left}, expected {want}", victim=gone, **facts)
     ctx.label("delete-checked", "history:" + history)
+    check_moves(entity, ops, move, size, facts, single)
+    if move is not None:
+        ctx.label("moves-checked")
 
 
 def touch_tests(spec, case):
@@ -425,7 +471,8 @@ def round_cases(draw, cls: str):
     p["m"] = draw(st.sampled_from(list(range(12))))
     p["history"] = draw(st.sampled_from(HISTORIES))
     p["mutate"] = draw(st.sampled_from(MUTATIONS))
-    return p
+    p["move"] = draw(moves())
+    return xs.settle_far(p, draw(xs.far_offsets()), None)
 
 
 def check_round(case, ctx: Ctx) -> None:
@@ -471,8 +518,11 @@ def check_round(case, ctx: Ctx) -> None:
     core, shell, ops = positional(dict(facts, after_caller=how))
     lst = core if (case["which"] == "core" and len(core)) else shell
     victim = lst[case["m"] % len(lst)]
-    delete_check(shape, ops, victim, facts, ctx, case.get("history", "write"))
+    # Hemisphere lofts share Face objects with their neighbours by design: only the whole shape is moved there
+    delete_check(shape, ops, victim, facts, ctx, case.get("history", "write"), case.get("move"),
+                 single=case["cls"] != "Hemisphere")
     ctx.nt(xs.is_general(case["place"]))
+    ctx.label(f"far-ratio={xs.far_ratio(case):.0e}" if xs.far_ratio(case) else "near-origin")
     ctx.label("general" if xs.is_general(case["place"]) else "aligned", "delete:" + ("core" if lst is core else "shell"),
               "caller:" + how if handed else "caller:untouched")
 
@@ -483,12 +533,13 @@ SKETCHES = ["OneCoreDisk", "FourCoreDisk", "HalfDisk", "QuarterDisk", "WrappedDi
 
 @st.composite
 def sketch_cases(draw, kind: str):
-    return {
+    case = {
         "kind": kind, "sketch": draw(xs.sketch_params(kind)), "place": draw(xs.placements()),
         "sweep": draw(st.sampled_from(["extrude-amount", "revolve", "loft"]).flatmap(xs.sweep_params)),
         "tier": draw(st.sampled_from([1, 0, 2])), "m": draw(st.sampled_from(list(range(12)))),
-        "history": draw(st.sampled_from(HISTORIES)), "mutate": draw(st.sampled_from(MUTATIONS)),
+        "history": draw(st.sampled_from(HISTORIES)), "mutate": draw(st.sampled_from(MUTATIONS)), "move": draw(moves()),
     }
+    return xs.settle_far(case, draw(xs.far_offsets()), None)
 
 
 def check_sketch(case, ctx: Ctx) -> None:
@@ -556,8 +607,10 @@ def check_sketch(case, ctx: Ctx) -> None:
     mutate_returned([shape.operations, shape.operations], how)
     sgrid = shape_checks(dict(facts, after_caller=how))
     row = sgrid[case["tier"] % len(sgrid)]
-    delete_check(shape, shape.operations, row[case["m"] % len(row)], facts, ctx, case.get("history", "write"))
+    delete_check(shape, shape.operations, row[case["m"] % len(row)], facts, ctx, case.get("history", "write"),
+                 case.get("move"))
     ctx.nt(xs.is_general(place))
+    ctx.label(f"far-ratio={xs.far_ratio(case):.0e}" if xs.far_ratio(case) else "near-origin")
     ctx.label("general" if xs.is_general(place) else "aligned", "sweep:" + case["sweep"]["how"],
               f"delete-tier={case['tier'] % len(sgrid)}", "caller:" + how,
               "single-row" if len(sgrid) == 1 else "multi-row")
